@@ -698,14 +698,18 @@ class Interp:
             out[n] = z3.BoolVal(l == "true") if l in ("true", "false") else z3.BitVecVal(int(l.split("_")[0]), 64)
         return out
 
-    def call_fn(self, fn, args, path, depth=0, gconsts=None):
+    def call_fn(self, fn, args, path, depth=0, gconsts=None, start="bb0", init=None, stop=()):
+        """start / init / stop: execute a slice of the body — from block `start`, with the locals in `init` set, until control reaches
+        a block in `stop` (returns ("stopped-at", bb))"""
         self.called.add(fn.name)
         fr = {"__types__": fn.locals, "__fn__": fn.name}
         if gconsts:
             fr["__gconsts__"] = gconsts
         for a, v in zip(fn.args, args):
             fr[a] = Cell(v)
-        bb = "bb0"
+        for a, v in (init or {}).items():
+            fr[a] = Cell(v)
+        bb = start
         steps = 0
         while True:
             steps += 1
@@ -725,6 +729,8 @@ class Interp:
             if nxt is None:
                 c = fr.get("_0")
                 return c.v if c is not None and c.v is not None else UNIT
+            if nxt in stop:
+                return ("stopped-at", nxt)
             bb = nxt
 
     def stmt(self, fr, st, path):
